@@ -22,7 +22,8 @@ META = dict(
           "alphabet is executed in every explored state in its own fork; non-trivial = every state other than "
           "the initial one; distinct = distinct key"),
     bound=dict(quick="all histories of <= 3 events over the expansion alphabet (every state reached by <= 2 events "
-                     "is expanded with every event of the full probe alphabet and digested)",
+                     "is expanded with every event of the full probe alphabet and digested); private-init-first model (first init of a "
+                     "group on a private table by init(P) or init(P, reload=True)) to depth 3",
                thorough="all histories of <= 4 events over the expansion alphabet, plus closure of the loader state space "
                         "(one read, the direct init and the calculators of every group) with all probe events observed in "
                         "every state; closure of the memo sub-alphabet; second representatives validated; sampled "
